@@ -1099,7 +1099,7 @@ func TestC07(t *testing.T) {
 		Extra: func() map[string]any {
 			thePool.mu.Lock()
 			defer thePool.mu.Unlock()
-			var notes []string
+			notes := []string{}
 			for k, n := range thePool.notes {
 				notes = append(notes, fmt.Sprintf("%s (x%d)", k, n))
 			}
